@@ -4,7 +4,7 @@
    wmean_def ps = sum(w x)/sum(w), repeat_by_weights (Spec/Sample.v).  The model describes the
    repaired code (D4: the weighted Mean/GeoMean skip zero weights). *)
 From MM Require Import Base.Num Base.GASort Model.Stream Proofs.Stream Model.Sample Spec.Sample Proofs.Sample.
-From MM Require Import Check.C09 Proofs.CheckC09.
+From MM Require Import Check.C09 Proofs.CheckC09 Proofs.GeoMeanBracket Proofs.CheckC09Log Proofs.CheckC09Hist Proofs.CheckC09HistVal Proofs.CheckC09HistAll Proofs.C09Extra.
 From Coq Require Import Permutation Sorted.
 Local Open Scope Q_scope.
 
@@ -320,6 +320,92 @@ Example C09_geomean_example : g_check [2; 8] (geomean [2; 8]) 0 (XFin 4) = 0%Z /
   g_check [2; 8] (geomean [2; 8]) 0 (XFin (401 # 100)) = 2%Z.
 Proof. split; [vm_compute; reflexivity | split; [discriminate | vm_compute; reflexivity]]. Qed.
 
+(* ---- (round 2, hL) Sorted-flag irrelevance, proved rather than read off the model ---- *)
+(* Mean, Sum, Weight, Variance and GeoMean of the model give EQUAL results on two samples with the same Xs and Weights,
+   whatever their Sorted flags (Bounds, the one statistic whose code reads the flag: C09_sorted_flag_irrelevant,
+   C09_weighted_sorted_flag_irrelevant) *)
+Theorem C09_stats_ignore_sorted_flag : forall s s', s_xs s = s_xs s' -> s_ws s = s_ws s' ->
+  sample_mean s = sample_mean s' /\ sample_sum s = sample_sum s' /\ sample_weight s = sample_weight s' /\
+  sample_variance s = sample_variance s' /\ sample_geomean s = sample_geomean s'.
+Proof. exact stats_ignore_sorted_flag. Qed.
+Print Assumptions C09_stats_ignore_sorted_flag.
+
+(* ---- GeoMean of more than 64 values: what the bracket is worth ---- *)
+(* (1) AM-GM over Q, for every non-empty list of positive rationals: prod x_i <= (sum x_i / n)^n.
+   (2) n > 64 positive values, accepted verdict (geo_ok is the GeoMean clause of C09_check_ok_sound): the observed g_obs lies in
+   [min (1 - 1e-9), max (1 + 1e-9)]; the TRUE geometric mean g (g > 0, g^n = prod x_i) lies in [min, max] and below the
+   arithmetic mean; hence |g_obs - g| <= max (1 + 1e-9) - min (1 - 1e-9) - and that is ALL that is certified beyond 64 values *)
+Theorem C09_geomean_beyond_64 :
+  (forall xs, xs <> [] -> (forall x, In x xs -> 0 < x) -> Qprod xs <= Qpw (Qsum xs / Qofnat (length xs)) (length xs)) /\
+  (forall xs o g mn mx, (64 < length xs)%nat -> (forall x, In x xs -> 0 < x) ->
+     geo_ok xs o -> 0 < g -> Qpw g (length xs) == Qprod xs -> is_min mn xs -> is_max mx xs ->
+     exists g_obs, o = XFin g_obs /\ 0 < g_obs /\
+       mn * (1 - e9g) <= g_obs /\ g_obs <= mx * (1 + e9g) /\
+       mn <= g /\ g <= mx /\ g <= mean_def xs /\
+       Qabs (g_obs - g) <= mx * (1 + e9g) - mn * (1 - e9g)).
+Proof. exact geomean_beyond_64. Qed.
+Print Assumptions C09_geomean_beyond_64.
+Example C09_geomean_true_example : (1 <= 2 /\ 2 <= 4) /\ 2 <= mean_def [1; 2; 4].   (* g = 2 for {1,2,4}: 2^3 = 8 *)
+Proof. exact geomean_124. Qed.
+
+(* ---- Logspace: the two boolean tests of an accepted case, interpreted ---- *)
+(* vec_ok (VLog ..) is what C09_check_ok_sound gives for an accepted Logspace call.  log_ok (Proofs/CheckC09Log.v): num positive
+   values; each value whose exponent lo + i (hi-lo)/(num-1) has a reduced denominator den <= 8 satisfies
+   |v^den - base^num| <= pow_rel * base^num (pow_spec); three consecutive values satisfy |v0 v2 - v1^2| <= 2^-36 v1^2;
+   hence consecutive ratios r_i = v_(i+1)/v_i agree: r_i (1-2^-36)^(j-i) <= r_j <= r_i (1+2^-36)^(j-i); and every ratio is
+   anchored at the end points: (last/first) (1-2^-36)^((num-1)(num-2)) <= r_i^(num-1) <= (last/first) / (1-2^-36)^((num-1)(num-2)),
+   last/first being base^(hi-lo) = (base^step)^(num-1); the end points themselves are value-checked when lo and hi have
+   denominators <= 8 *)
+Theorem C09_logspace_accept_sound : forall lo hi num base res, vec_ok (VLog lo hi num base res) ->
+  log_ok lo hi num base res /\
+  ((2 <= num)%nat -> exists v0 vl, nth_error res 0 = Some v0 /\ nth_error res (num - 1) = Some vl /\
+                                   0 < v0 /\ 0 < vl /\ pow_spec base lo v0 /\ pow_spec base hi vl).
+Proof. exact logspace_accept_all. Qed.
+Print Assumptions C09_logspace_accept_sound.
+Example C09_logspace_example : vec_ok (VLog 0 2 3 2 [1; 2; 4]) /\ log_ok 0 2 3 2 [1; 2; 4].
+Proof. exact (conj logspace_024 logspace_024_ok). Qed.
+
+(* ---- Histories: the conclusion about the OBSERVED DUMPS only (no model store, no h_step) ---- *)
+(* obs_hist_ok cur ops (Proofs/CheckC09Hist.v), cur = the store as last observed (initially the given sample):
+   after Sort i the dump has the same number of samples, sample i is flagged Sorted, ascending, and its (value, weight)
+   pairs are a permutation (up to ==) of those last seen, every other sample is unchanged; after Copy i the dump is the last
+   one plus a copy of sample i; after a direct write the dump is the last one with that one value replaced and the flag
+   cleared; every Query is correct (query_obs_ok: definitions of Spec level only) for a legal Sample whose lists are == the
+   last dump of that sample - and therefore (obs_hist_fresh_ok, ANY history, direct writes included) correct in terms of the
+   Xs and Weights of that sample AS LAST DUMPED (query_fresh_ok c; c is a legal Sample).  Without direct writes: (obs_multiset_ok) EVERY sample of EVERY dump consists of the pairs of
+   the ORIGINAL sample up to order, is weighted iff the original is, and is ascending when flagged; and (obs_fresh_ok)
+   every Query equals the fresh computation ON THE ORIGINAL SAMPLE within tolerance: query_fresh_ok s0 mentions only
+   the Xs and Weights of the original sample s0 (no arrangement, no flag, no model store): Mean within tol_mean / tol_wmean of
+   mean_def / wmean_def, Weight, Variance (weighted: panic), Bounds = least / greatest (weight-carrying) value exactly, Sum
+   within tol_sum of the exact sum when sum |terms| <= MaxFloat64 (the +-Inf branch depends on the storage order of the
+   terms and is not restated).  All definitions AND all tolerance functions are proved to be functions of the multiset of
+   pairs up to == (Proofs/CheckC09HistVal.v). *)
+Theorem C09_history_observed_sound : forall sorted hasw xs ws ops c tag pos diag,
+  check_case (KHist sorted hasw xs ws ops) = verdict c tag pos diag -> (c = 0 \/ c = 1)%Z ->
+  let s0 := mkSample xs (ows hasw ws) sorted in
+  obs_hist_ok [s0] ops /\ obs_hist_fresh_ok [s0] ops /\
+  (no_poke (map fst ops) -> obs_multiset_ok s0 ops /\ obs_fresh_ok s0 ops).
+Proof. exact history_line_all. Qed.
+Print Assumptions C09_history_observed_sound.
+
+(* the steps: (1) whenever the model store is pointwise == to what was last observed, hist_ok gives obs_hist_ok;
+   (2) without direct writes the multiset invariant; (3) a query correct for an arrangement of the original pairs is
+   correct in terms of the original sample; (4) every Query restated on the last dump of the queried sample *)
+Theorem C09_history_observed_steps :
+  (forall ops st cur, Forall swf st -> Forall2 sample_eqv st cur -> hist_ok st ops -> obs_hist_ok cur ops) /\
+  (forall ops s0 cur, no_poke (map fst ops) -> Forall (inv s0) cur -> obs_hist_ok cur ops -> obs_multiset_ok s0 ops) /\
+  (forall s0 s mst m sm w b1 b2 vst v, swf s0 -> swf s -> inv s0 s ->
+     query_obs_ok s mst m sm w b1 b2 vst v -> query_fresh_ok s0 mst m sm w b1 b2 vst v) /\
+  (forall ops cur, obs_hist_ok cur ops -> obs_hist_fresh_ok cur ops).
+Proof. exact history_steps_all. Qed.
+Print Assumptions C09_history_observed_steps.
+Example C09_history_observed_example :
+  obs_hist_ok [ex_s0] ex_ops /\ obs_multiset_ok ex_s0 ex_ops /\ obs_fresh_ok ex_s0 ex_ops /\
+  ~ obs_hist_ok [ex_s0] [(HSort 0, ODump [mkSD true true [2; 1; 2] [1; 3; 5]])] /\
+  query_fresh_ok ex_s0 0 (XFin (5 # 3)) (XFin 15) (XFin 9) (XFin 1) (XFin 2) 2 XNaN /\
+  ~ query_fresh_ok ex_s0 0 (XFin 2) (XFin 15) (XFin 9) (XFin 1) (XFin 2) 2 XNaN.
+Proof. exact (conj ex_obs (conj ex_multiset (conj ex_fresh (conj ex_obs_rejects_unsorted (conj ex_fresh_query ex_fresh_rejects_mean))))). Qed.
+
 (* Non-vacuity: real lines of the harness (hexadecimal fields written in decimal), accepted, and they decode. *)
 Definition C09_line_unw : list Z := [9; 0; 0; 0; 8; 4611686018427387904; 4616189618054758400; 4616189618054758400; 4616189618054758400; 4617315517961601024; 4617315517961601024; 4619567317775286272; 4621256167635550208; 0; 4617315517961601024; 4616832989430097042; 4611996969317966890; 4616868778438153437; 4611686018427387904; 4621256167635550208; 0; 4617315517961601024; 0; 4616832989430097042; 0; 4611996969317966890; 0; 4616868778438153437; 4630826316843712512; 4620693217682128896; 4611686018427387904; 4621256167635550208; 1]%Z.
 Definition C09_line_w : list Z := [9; 0; 1; 1; 3; 4607182418800017408; 4611686018427387904; 4613937818241073152; 3; 0; 4607182418800017408; 4611686018427387904; 4611686018427387904; 4607182418800017408; 4607182418800017408; 4610862402797412991; 4607182418800017408; 4613937818241073152; 0; 4613187218303178069; 2; 0; 2; 0; 0; 4613083803783214218; 4620693217682128896; 4613937818241073152; 4611686018427387904; 4613937818241073152; 1]%Z.
@@ -333,6 +419,16 @@ Example C09_check_examples :
   check_C09 C09_line_lin = verdict 0 256 (-1) [] /\      (* Linspace 0 1 5 *)
   check_C09 C09_line_sum = verdict 0 256 (-1) [].         (* vec.Sum 1 2 3.5 *)
 Proof. vm_compute. repeat split; reflexivity. Qed.
+(* the real history line above (Copy 0; Sort 1; Query 0; Poke 1 0 10; Query 1 - a direct write included) satisfies the
+   conclusion about the observed dumps *)
+Example C09_history_real_line : exists sorted hasw xs ws ops,
+  p_line C09_line_hist = Some (KHist sorted hasw xs ws ops, []) /\ ~ no_poke (map fst ops) /\
+  obs_hist_fresh_ok [mkSample xs (ows hasw ws) sorted] ops.
+Proof.
+  do 5 eexists. split; [vm_compute; reflexivity|]. split.
+  - intro NP. unfold no_poke in NP. cbn [map fst] in NP. do 3 apply Forall_inv_tail in NP. apply Forall_inv in NP. exact NP.
+  - eapply (check_hist_fresh_all _ _ _ _ _ 0%Z 3200%Z (-1)%Z []); [vm_compute; reflexivity|left; reflexivity].
+Qed.
 Example C09_lines_decode :
   Forall (fun l => exists cs, p_line l = Some (cs, [])) [C09_line_unw; C09_line_w; C09_line_hist; C09_line_lin; C09_line_sum].
 Proof. repeat constructor; vm_compute; eexists; reflexivity. Qed.
